@@ -36,6 +36,7 @@ enum Dim
   D_BY,      // client roles: connect by IP literal or by host name
   D_SRVCA,   // iora server roles: caFile used to verify client certificates
   D_CFG,     // transport roles: is the TlsConfig behind the requested TlsMode actually switched on
+  D_SCEN,    // what the application does with the session
   D_COUNT
 };
 
@@ -49,7 +50,18 @@ enum Trust
   T_WRONG_SYS_RIGHT, // caFile = CA B, but the system store contains CA A
   T_SYS_RIGHT        // no caFile, the system store contains CA A (system roots are the configured anchors)
 };
-enum SrvCert { SC_VALID, SC_SELFSIGNED, SC_EXPIRED, SC_WRONGNAME, SC_MISMATCH, SC_NOTYET /*notBefore = now+1d*/, SC_NOTYET_FAR /*now+10y*/ };
+enum SrvCert
+{
+  SC_VALID,
+  SC_SELFSIGNED,
+  SC_EXPIRED,
+  SC_WRONGNAME,
+  SC_MISMATCH,
+  SC_NOTYET /*notBefore = now+1d*/,
+  SC_NOTYET_FAR /*now+10y*/,
+  SC_SAN_OTHER_CN /*CN=localhost, SAN dNSNames for other hosts only*/,
+  SC_NOSAN_CN /*CN=localhost, no SAN (control)*/
+};
 enum CliCert
 {
   CC_NONE,
@@ -64,6 +76,11 @@ enum Ver { V10, V11, V12, V13 };
 enum MinVer { MV_0, MV_10, MV_12, MV_13 };
 enum By { BY_IP, BY_NAME };
 enum SrvCa { CA_RIGHT, CA_WRONG, CA_NONE };
+enum Scen
+{
+  SCEN_NORMAL,            // wait for the outcome, exchange markers, close
+  SCEN_CLOSE_IN_HANDSHAKE // send 0-3 markers at once, close after 0-5 ms, against a peer that answers late or never
+};
 enum Cfg
 {
   CFG_OK,           // enabled = true, defaultMode = Client/Server
@@ -76,7 +93,7 @@ using Cell = std::array<int, D_COUNT>;
 inline const char *dimName(int d)
 {
   static const char *const n[D_COUNT] = {"role", "peer", "verify", "trust", "srvCert", "peerReqCert",
-                                         "cliCert", "peerCeiling", "minVersion", "by", "srvCa", "tlsConfig"};
+                                         "cliCert", "peerCeiling", "minVersion", "by", "srvCa", "tlsConfig", "scenario"};
   return n[d];
 }
 
@@ -87,7 +104,7 @@ inline const char *valueName(int dim, int v)
   static const char *onoff[] = {"off", "on"};
   static const char *trust[] = {"caA", "caB", "none", "caB+sysStoreHasCaA", "sysStoreHasCaA"};
   static const char *sc[] = {"validByCaA", "selfsigned", "expiredByCaA", "wrongnameByCaA", "keymismatch", "notYetValid+1dByCaA",
-                             "notYetValid+10yByCaA"};
+                             "notYetValid+10yByCaA", "sanOtherNames+cnLocalhostByCaA", "noSan+cnLocalhostByCaA"};
   static const char *cc[] = {"none", "validByCaA", "validByCaB", "expiredByCaA", "selfsigned", "notYetValid+1dByCaA",
                              "notYetValid+10yByCaA"};
   static const char *ver[] = {"TLS1.0", "TLS1.1", "TLS1.2", "TLS1.3"};
@@ -95,6 +112,7 @@ inline const char *valueName(int dim, int v)
   static const char *by[] = {"127.0.0.1", "localhost"};
   static const char *ca[] = {"caA", "caB", "none"};
   static const char *cfg[] = {"ok", "enabled=false", "defaultMode=None"};
+  static const char *scen[] = {"normal", "send+close-during-handshake"};
   switch (dim)
   {
   case D_ROLE: return role[v];
@@ -109,6 +127,7 @@ inline const char *valueName(int dim, int v)
   case D_BY: return by[v];
   case D_SRVCA: return ca[v];
   case D_CFG: return cfg[v];
+  case D_SCEN: return scen[v];
   }
   return "?";
 }
@@ -199,6 +218,10 @@ struct Ctx
   Observed obs;
   PeerResult peer;
   bool peerRan = false;
+  // SCEN_CLOSE_IN_HANDSHAKE only
+  std::vector<std::string> burst; // 0-3 markers written right after connect() / inside onAccept
+  int closeDelayUs = 0;           // the application closes this long afterwards
+  int peerDelayMs = 0;            // the peer starts its side of the handshake this late
 };
 
 inline bool contains(const std::string &hay, const std::string &needle)
@@ -246,6 +269,8 @@ inline const Identity *serverIdentity(int sc)
   case SC_WRONGNAME: return &p.srvWrongName;
   case SC_NOTYET: return &p.srvNotYet;
   case SC_NOTYET_FAR: return &p.srvNotYetFar;
+  case SC_SAN_OTHER_CN: return &p.srvSanOtherCnMatch;
+  case SC_NOSAN_CN: return &p.srvNoSanCnMatch;
   default: return &p.srvMismatchFiles;
   }
 }
@@ -307,6 +332,11 @@ inline PeerConfig peerConfigFor(const Ctx &x)
   pc.kind = c[D_KIND] == K_OPENSSL ? PeerKind::OpenSsl : (c[D_KIND] == K_PLAINTEXT ? PeerKind::Plaintext : PeerKind::Garbage);
   pc.serverRole = isClientRole(c[D_ROLE]);
   pc.maxVersion = versionConst(c[D_CEIL]);
+  if (c[D_SCEN] == SCEN_CLOSE_IN_HANDSHAKE)
+  {
+    pc.startDelayMs = x.peerDelayMs;
+    if (pc.kind != PeerKind::OpenSsl) return pc; // a silent sink: accepts TCP, never answers, records what it reads
+  }
   if (pc.kind != PeerKind::OpenSsl)
   {
     pc.rawSend = rawPayload(x);
